@@ -245,29 +245,36 @@ theorem firstLine_no_lf (l : List UInt8) : ∀ b ∈ firstLine l, (b != 10) = tr
       · exact ih b hb'
     · simp at hb
 
-/-- The repaired comparison implies: a sidecar that is used states the id of the `.sym`'s own MODULE line
-(whenever it states one at all). -/
-theorem BpCand.own_eq_sideId_of_used {ι : Type} (parseId : List UInt8 → Option (DebugId ι)) (c : BpCand)
-    (hu : c.sidecarUsed = true) (d : DebugId ι) (hs : c.sideId parseId = some d) : c.own parseId = some d := by
+theorem lineId_some {ι : Type} (parseId : List UInt8 → Option (DebugId ι)) (utf8 : List UInt8 → Bool)
+    (l : List UInt8) (d : DebugId ι) (h : lineId parseId utf8 l = some d) : (idToken l).bind parseId = some d := by
+  simp only [lineId] at h
+  split at h
+  · exact h
+  · cases h
+
+/-- The repaired comparison implies: a sidecar that is used reports the id of the `.sym`'s own MODULE line. -/
+theorem BpCand.own_eq_sideReported_of_used {ι : Type} [DecidableEq ι] (parseId : List UInt8 → Option (DebugId ι))
+    (utf8 : List UInt8 → Bool) (c : BpCand) (hu : c.sidecarUsed parseId utf8 = true) :
+    c.own parseId = c.sideReported parseId utf8 := by
   simp only [BpCand.sidecarUsed] at hu
-  cases hside : c.side with
-  | ok info =>
-    simp only [hside, Bool.and_eq_true, decide_eq_true_eq] at hu
-    simp only [BpCand.sideId, hside] at hs
+  split at hu
+  · rename_i info r hside hrep
+    simp only [Bool.and_eq_true, decide_eq_true_eq] at hu
+    obtain ⟨⟨_, hpre⟩, hfirst⟩ := hu
+    rw [hrep]
+    simp only [BpCand.sideFirstId, hside] at hfirst
+    have htok := lineId_some parseId utf8 _ r hfirst
     simp only [BpCand.own]
-    obtain ⟨_, hpre⟩ := hu
-    -- head = moduleLine ++ rest
     have hhead : c.head = firstLine info ++ c.head.drop (firstLine info).length := by
       conv => lhs; rw [← List.take_append_drop (firstLine info).length c.head]
       rw [hpre]
     rw [hhead, firstLine_append_of_no_lf _ _ (firstLine_no_lf info)]
     cases ht : idToken (firstLine info) with
-    | none => simp [ht] at hs
+    | none => simp [ht] at htok
     | some t =>
       rw [idToken_append _ _ t ht]
-      simpa [ht] using hs
-  | unreadable => simp [hside] at hu
-  | unparsable => simp [hside] at hu
+      simpa [ht] using htok
+  · cases hu
 
 /-! ### dyld loop -/
 
